@@ -118,6 +118,19 @@ CHECKS = {
         "must raise while their valid twin is accepted.",
         "Labels are drawn without Unicode white space, '+' and '->'. K facet restricted to mild unit systems "
         "and orders <= 4 (float conversion factors stay finite)."),
+    "C20": (
+        "fault injection into generated valid models (Hypothesis) + bounded-exhaustive enumeration of "
+        "out-of-space positions; must-raise oracle with accepted fault-free twin and unchanged-state check",
+        "Fault enumeration by generation. A valid random model is rendered as the script dictionary and "
+        "exactly one fault of an 18-entry catalogue (each entry a clause of the statement) is injected at a "
+        "random nesting level: the reader must raise while the fault-free twin is accepted; the same classes "
+        "are driven through constructors and setters (refused setters must leave the object unchanged); "
+        "every out-of-range linear index in [-2n,3n] and coordinate triple on all grids up to 3x3x3 and path "
+        "graphs up to 6 nodes goes through every accessor that takes a position (spaces, system, "
+        "apply_reaction, kinetics, trajectory) with the system state compared afterwards; unknown species "
+        "and invalid coarse-graining maps (valid map + one broken rule) likewise.",
+        "Any exception type counts as rejection. The catalogue lists only inputs the statement, the "
+        "documentation or the code's own checks declare invalid."),
 }
 
 NOT_BUILT = "check not built yet in this working session (planned; DESIGN.md section 4)"
@@ -136,7 +149,7 @@ def main():
                 "thorough_cmd": "./check %s --tier thorough" % pid,
                 "evidence_file": "/verif/evidence/%s.json" % pid,
                 "replay_cmd_template": "./check %s --replay {path}" % pid,
-                "level_claimed": {"category": "exploration", "text": text,
+                "level_claimed": {"category": "fault_enumeration" if pid == "C20" else "exploration", "text": text,
                                   "design_ref": "DESIGN.md section 4, %s" % pid},
                 "level_note": note,
                 "technique": tech,
